@@ -5,6 +5,7 @@ import Ovsdb.Model.Cond
 import Ovsdb.CodecUpdates
 import Ovsdb.CodecTxn
 import Ovsdb.Spec.Rfc
+import Ovsdb.CodecWire
 /-
   Line-protocol driver: one JSON request per line on stdin, one JSON answer per
   line on stdout.  {"fn": name, ...inputs} -> {"ok": result} | {"error": text}
@@ -179,6 +180,7 @@ def dispatch (fn : String) (j : Json) : P Json := do
   | "cacheHistory" => cacheHistory j
   | "rowsByCondition" => rowsByConditionFn j
   | "evalCond" => evalCondFn j
+  | "decodeWire" => decodeWireFn j
   | _ => throw s!"unknown fn {fn}"
 
 def handle (line : String) : String :=
